@@ -131,6 +131,60 @@ pub fn run_one(ctx: &Ctx, rep: &mut Report, seq: &[usize], seed: u64, label: &st
     }
 }
 
+/// Family "reply while twelve interesting peers are connected": eleven listed seeders that never
+/// unchoke, one or two more that connect in, one listed peer that leaves after a moment (which makes
+/// the manager announce again with an empty candidate list): the good reply to that announce is
+/// handled while the client is interested in more peers than it ever dials by itself.
+pub fn run_crowded(ctx: &Ctx, rep: &mut Report, seed: u64) {
+    let mut sr = Rng::new(seed);
+    let torrent = Rc::new(gen_sim_torrent(&mut sr, 4, true));
+    let n = torrent.n();
+    let mut peers = vec![];
+    // ten listed seeders + the one that leaves = the eleven the client dials at once, so that its
+    // candidate list is empty when that one leaves; three more seeders connect in
+    let listed = 10usize;
+    for k in 0..listed + 3 {
+        let mut s = SeederCfg::honest(peer_id(k), vec![true; n]);
+        s.unchoke_after_ms = Some(100_000_000);
+        s.idle_close_ms = 100_000_000;
+        s.chatter_ms = Some(50_000);
+        let incoming = k >= listed;
+        s.incoming = incoming;
+        let s2 = s.clone();
+        peers.push(PeerSpec { addr: addr(k), id: peer_id(k), entry: if incoming { Entry::Incoming { at_ms: 500 + 200 * (k as u64 - listed as u64) } } else { Entry::Dialled { from_announce: 0 } }, make: Box::new(move |nth| if nth > 1 { None } else { Some(seeder(s2.clone())) }), chunk: 0, pipe: 1 << 20 });
+    }
+    // the one that leaves
+    let mut q = SeederCfg::honest(peer_id(20), vec![true; n]);
+    q.unchoke_after_ms = Some(100_000_000);
+    q.idle_close_ms = 100_000_000;
+    q.disc = Some(crate::sim::peers::Disc::AtMs(sr.range(1_500, 4_000)));
+    let q2 = q.clone();
+    peers.push(PeerSpec { addr: addr(20), id: peer_id(20), entry: Entry::Dialled { from_announce: 0 }, make: Box::new(move |nth| if nth > 1 { None } else { Some(seeder(q2.clone())) }), chunk: 0, pipe: 1 << 20 });
+    let cfg = SimCfg { torrent: torrent.clone(), peers, tracker: vec![], failpoints: None, max_virtual_ms: 30_000, stop_on_extract: true, linger_ms: 200, disk_on: disk_never, seed, pre: None, tracker_fn: None, driver: None };
+    rep.evaluations += 1;
+    let o = run_sim(cfg, &ctx.scratch, 180);
+    let desc = json!({"family": "good reply handled while the client is interested in 12+ connected peers", "seed": seed});
+    if o.watchdog { rep.inconclusive(format!("watchdog ({:?})", desc)); return; }
+    let max_interesting = o.mgr().map(|(_, _, s)| s.peers.iter().filter(|p| p.am_interested).count()).max().unwrap_or(0);
+    let replies = o.mgr().filter(|(_, k, _)| *k == "TrackerResp").count();
+    let crowded_reply = o.mgr().any(|(_, k, s)| k == "TrackerResp" && s.peers.iter().filter(|p| p.am_interested).count() >= 12);
+    rep.max("interesting_peers_connected_at_once", max_interesting as u64);
+    if std::env::var("VH_DEBUG").is_ok() {
+        for (e, k, s) in o.mgr() { if k == "TrackerResp" || k == "KillReq" || k == "TrackerFail" { println!("t={} {} {} interesting={} peers={} cand={}", e.ms, k, e.addr, s.peers.iter().filter(|p| p.am_interested).count(), s.peers.len(), s.candidates.len()); } }
+    }
+    let trace = || -> Vec<String> { o.events.iter().filter(|e| matches!(&e.kind, EvKind::Note { .. } | EvKind::Mgr { .. })).filter(|e| !matches!(&e.kind, EvKind::Mgr { kind, .. } if *kind == "SyncStats" || *kind == "Rotation")).map(fmt_ev).map(|l| l.chars().take(200).collect()).rev().take(14).collect::<Vec<String>>().into_iter().rev().collect() };
+    if let Some(p) = o.panics.first() {
+        rep.violation(&format!("C19:panic:{}", panic_site(p)), p.clone(), json!({"scenario": desc, "trace": trace()}));
+        return;
+    }
+    if o.session_panicked || !o.session_alive_at_end {
+        rep.violation("C19:session-dead-after-reply", format!("the manager no longer answers after {} tracker replies ({} interesting peers connected)", replies, max_interesting), json!({"scenario": desc, "trace": trace()}));
+        return;
+    }
+    if crowded_reply { rep.count("replies_handled_with_12_or_more_interesting_peers", 1); }
+    rep.distinct(&hash64(&("crowded", seed % 64)));
+}
+
 /// Family "overlapping announces": two peers of the first reply refuse the connection, which makes
 /// the manager re-announce twice at once; the first of those announces succeeds, the other one keeps
 /// failing. The session must keep serving while that one fails.
@@ -225,6 +279,10 @@ pub fn run(ctx: &Ctx, rep: &mut Report) {
     // (b2) overlapping announces
     for i in 0..ctx.count(32, 800) {
         run_overlap(ctx, rep, r.next(), (i % 4) as usize);
+    }
+    // (b3) a good reply handled while more interesting peers are connected than the client dials
+    for _ in 0..ctx.count(32, 400) {
+        run_crowded(ctx, rep, r.next());
     }
     // (c) random sequences of length <= 8
     for _ in 0..ctx.count(160, 4_000) {
